@@ -47,6 +47,8 @@ class FakeNode:
         if path == "/chains/main/chain_id":
             return self.chain_id
         if path.startswith("/chains/main/mempool/pending_operations"):
+            if getattr(self, "mempool_down", False):   # e.g. a public gateway that does not expose the mempool
+                raise self._err({"kind": "permanent", "id": "node.mempool.not_exposed"})
             return {"applied": list(self.mempool), "refused": [], "outdated": [], "branch_refused": [],
                     "branch_delayed": [], "unprocessed": [], "validated": list(self.mempool)}
         if len(parts) >= 4 and parts[:3] == ["chains", "main", "blocks"]:
